@@ -35,6 +35,7 @@ OPTS = {
     "hdr": {"mnemonics_header": True, "data_section_header": "~A"},
     "spacers": {"spacer": "  ", "lhs_spacer": "", "len_numeric_field": -1},
     "v12wrap": {"version": 1.2, "wrap": True, "data_width": 40},
+    "tabspacer": {"spacer": "\t", "wrap": False},
 }
 
 
@@ -68,13 +69,16 @@ def make_origin(kind, shape, rng):
         return las
     stop = idx[-1] if kind == "read_ok" else idx[-1] + 7.0
     step = (idx[1] - idx[0]) if len(idx) > 1 else 0.0
-    lines = ["~Version", "VERS. 2.0 : v", "WRAP. NO : w", "~Well",
+    # the file may declare its own delimiter (which differs from what write() will use: blanks)
+    dlm = rng.choice(["", "", "COMMA", "TAB"])
+    sep = {"": " ", "COMMA": ",", "TAB": "\t"}[dlm]
+    lines = ["~Version", "VERS. 2.0 : v", "WRAP. NO : w"] + (["DLM. %s : delimiter" % dlm] if dlm else []) + ["~Well",
              "STRT.M %r : start" % float(idx[0]), "STOP.M %r : stop" % float(stop), "STEP.M %r : step" % float(step),
              "NULL. -999.25 : null", "WELL. W-2 : well", "FLD.u  : empty with unit", "~Curves",
              "DEPT.M : depth", "GR.gAPI : gamma", "GR. : again", "~Params", "BHT.degC  : empty", "MUD. x : mud",
              "~Other", "some text", "~ASCII"]
     for i in range(len(idx)):
-        lines.append("%r %r %r" % (float(idx[i]), float(gr[i]), float(gr2[i])))
+        lines.append(sep.join("%r" % float(x) for x in (idx[i], gr[i], gr2[i])))
     return lasio.read("\n".join(lines) + "\n", mnemonic_case=rng.choice(["upper", "preserve"]))
 
 
